@@ -163,3 +163,34 @@ Definition table (env : list adt) (rules : list rule) : list (list nat) :=
                 ++ flat_map (fun p : bool * bool => [b2n (fst p); b2n (snd p)]) rho)%list) (assignments (r_nparams r))
      | _ => []
      end) (combine (seq 0 (List.length rules)) rules).
+
+(* ---- explicit impls are no weaker than the contents -------------------------------------------------------------------
+   An explicit `unsafe impl Send/Sync` replaces the structural rule.  For an ADT whose own fields hold no raw pointer (where the
+   compiler's structural rule already says who may cross threads) the explicit impl may only be STRONGER: whenever it grants the
+   marker for an assignment of its parameters, the structural rule over the fields grants it too.  (ADTs with raw-pointer fields
+   are exactly those where the explicit impl is the only statement of ownership; they are covered by the conversion matrix.) *)
+Fixpoint has_ptr (t : ty) : bool :=
+  match t with
+  | TPtr _ | TUnknown _ => true
+  | TRef t' | TMutRef t' | TWrap t' => has_ptr t'
+  | TAdt _ args => existsb has_ptr args
+  | _ => false
+  end.
+Definition grants (bs : list bound) (rho : list (bool * bool)) : bool :=
+  forallb (fun b : bound => let '(i, s, y) := b in (implb s (fst (nth_pair rho i))) && (implb y (snd (nth_pair rho i)))) bs.
+Definition structural (env : list adt) (a : adt) (rho : list (bool * bool)) (m : marker) : bool :=
+  forallb (fun f => has env FUEL rho [] m f) (a_fields a).
+Definition overreach_of (env : list adt) (a : adt) : list (string * list (bool * bool) * marker) :=
+  if existsb has_ptr (a_fields a) || (List.length (a_fields a) =? 0)%nat then [] else
+  flat_map (fun rho =>
+    flat_map (fun m => match (match m with MSend => a_send a | MSync => a_sync a end) with
+                       | Some bs => if grants bs rho && negb (structural env a rho m) then [(a_name a, rho, m)] else []
+                       | None => []
+                       end) [MSend; MSync]) (assignments (a_nparams a)).
+Definition overreach (env : list adt) : list (string * list (bool * bool) * marker) := flat_map (overreach_of env) env.
+(* rows for the harness: [adt index; marker (0 Send, 1 Sync)] ++ flattened assignment *)
+Definition overreach_rows (env : list adt) : list (list nat) :=
+  flat_map (fun ia : nat * adt => map (fun x : string * list (bool * bool) * marker => let '(_, rho, m) := x in
+     ([fst ia; match m with MSend => 0 | MSync => 1 end] ++ flat_map (fun p : bool * bool => [b2n (fst p); b2n (snd p)]) rho)%list) (overreach_of env (snd ia)))
+    (combine (seq 0 (List.length env)) env).
+
